@@ -16,7 +16,7 @@
   registered types is equality (phase `tostr`: a runtime with registered types
   whose `to_string` has 0, 1, 2, 3 parameters / another return type / is missing).
 -/
-import RotoV.Model.TcBuiltin
+import RotoV.Lemmas.TcBuiltin
 
 namespace RotoV.C07Builtin
 open RotoV.TcBuiltin RotoV.Gen
@@ -87,6 +87,16 @@ theorem fstring_part_needs_unary_to_string {α : Type} [DecidableEq α] (method 
       simp only [hz, hr]
 
 example : fstringPartAccepts (some ⟨[0], 1⟩) 0 1 = true := by decide
+
+/-- **Every deferred method obligation is compared exactly.** Whatever signature an
+    obligation requires (today only f-string parts create one), `resolve_obligations` as
+    written lets a found method through only if its signature EQUALS the required one:
+    same number of parameters, same parameter types, same return type (ground types). -/
+theorem obligation_signature_exact {α : Type} [DecidableEq α] (found required : Sig α)
+    (h : sigFits found required = true) : found = required :=
+  sigFitsWith_all_exact found required h
+
+example : sigFits (⟨[0, 2], 1⟩ : Sig Nat) ⟨[0, 2], 1⟩ = true := by decide
 
 /-- (what the pairwise comparison alone would let through) without the test on
     the number of parameters a method `to_string(self, radix: u32) -> String`
